@@ -615,11 +615,12 @@ def byte_closure(px, st, clos):
         m = re.search(r'num::<impl u8>::(is_ascii\w*)$', clos[1])
         if m and m.group(1) in U8_PREDS:
             return getattr(sh, U8_PREDS[m.group(1)])
-        return None
-    if clos[0] != 'closure' or clos[1] not in px.p.bodies:
+        if clos[1] not in px.p.bodies or px.p.has_loops(clos[1]):
+            return None
+    if clos[0] not in ('closure', 'fn') or clos[1] not in px.p.bodies:
         return None
     cache = px.__dict__.setdefault('_byte_cache', {})
-    key = (clos[1], clos[2])
+    key = (clos[1], clos[2] if len(clos) > 2 else None)
     if key in cache:
         return cache[key]
     from .px import State
@@ -628,10 +629,12 @@ def byte_closure(px, st, clos):
     subj = ('B1', tmp.uid())
     tmp.shapes[subj] = Shape.product(1, [sh.FULL])
     body = px.p.bodies[clos[1]]
-    argty = body['mir']['locals'][2] if len(body['mir']['locals']) > 2 else ''
+    isfn = clos[0] == 'fn'
+    ai = 1 if isfn else 2
+    argty = body['mir']['locals'][ai] if len(body['mir']['locals']) > ai else ''
     arg = ('ref', subj) if argty.startswith('&') else ('byte', subj, 0, ())
     try:
-        outs = px._run(tmp, clos[1], [clos, arg], 3)
+        outs = px._run(tmp, clos[1], [arg] if isfn else [clos, arg], 3)
     except Exception:
         cache[key] = None
         return None
